@@ -77,6 +77,17 @@ def gen_can_desc(rng):
                     if rng.random() < 0.7:
                         sigs.append({"name": f["name"], "fields": [("mux_count", k), ("mux_signal", "mx")]})
             desc["impls"].append({"protocol": "can", "type": st["name"], "name": st["name"], "fields": ifs, "signals": sigs})
+            if rng.random() < 0.4:
+                # the same struct bound again (another name, id, possibly another bus) with different per-signal options
+                fid2 = rng.choice([x for x in range(0, 2048) if x not in used]); used.add(fid2)
+                ifs2 = [("id", fid2)] + ([("bus", rng.choice(["bus1", "bus2"]))] if rng.random() < 0.5 else [])
+                sigs2 = []
+                if style == "bytes":
+                    sigs2 = [{"name": f["name"], "fields": [("endianess", "big")]} for f in fields if rng.random() < 0.5]
+                elif style == "mux":
+                    k2 = rng.randint(1, 6)
+                    sigs2 = [{"name": f["name"], "fields": [("mux_count", k2), ("mux_signal", "mx")]} for f in fields if f["name"] != "mx" and rng.random() < 0.5]
+                desc["impls"].append({"protocol": "can", "type": st["name"], "name": st["name"] + "B", "fields": ifs2, "signals": sigs2})
     return desc
 
 
